@@ -7,9 +7,10 @@ import GV.Model.Atomic
 /-!
   C13 — JavaScript-backed standard-library overrides equal the Go originals.
 
-  math/bits   `mul32_correct`, `add32_correct` (all operands); `Div32`: `div32_panics`, `rem32_panics`, `div32_no_fuel`;
-              the outcome relation `div32_full` (quo·y + rem = hi·2^32 + lo ∧ rem < y) is stated but NOT proved here —
-              the Knuth-D digit estimate is only checked by the correspondence runs (driver op `sdiv32` vs native Go)
+  math/bits   `mul32_correct`, `add32_correct` (all operands); `Div32`: `div32_panics`, `rem32_panics`, `div32_no_fuel`,
+              `div32_digit` (the Knuth-D quotient-digit estimate with its correction loop is exact, all digits);
+              the outcome relation `div32_full` (quo·y + rem = hi·2^32 + lo ∧ rem < y) is stated but NOT proved: the
+              normalisation-shift bookkeeping around the two digits is covered by the correspondence runs only
   unicode     `to_eq_scan`: the override's binary search = the linear scan on EVERY sorted table, all runes, all cases
               (the real tables' sortedness: GV.Props.C13Env over the regenerated tables)
   sync/atomic `swap_spec`, `cas_spec`, `add_wraps`, `load_store_spec`; `value_store_eq`, `value_swap_eq`,
@@ -45,8 +46,36 @@ theorem div32_no_fuel (q rhat yn1 yn0 un : Nat) (hy : 32768 ≤ yn1) (hy' : yn1 
     corrLoop loopFuel q rhat yn1 yn0 un ≠ none :=
   GV.Proofs.Bits32.corrLoop_terminates q rhat yn1 yn0 un hy hy' hr
 
-/-- the full outcome relation of `Div32` — stated, NOT proved (the two-digit Knuth-D estimate); every run compares the
-    model with this relation computed directly (`bits sdiv32`) and with native Go on the generated operands -/
+/-- the Knuth-D digit estimate, the heart of `Div32` (each of its two correction loops): on a normalised divisor
+    y = y1·2^16 + y0 (2^15 ≤ y1 < 2^16), from the initial estimate q = u1 / y1, r = u1 % y1 (u1 < y) the loop — with its
+    uint32 wrap-around arithmetic, which is shown not to wrap — returns the TRUE quotient digit of (u1·2^16 + u0) / y,
+    for ALL digits, within the model's loop budget. -/
+theorem div32_digit (y1 y0 u1 u0 : Nat) (hy1 : 32768 ≤ y1) (hy1' : y1 < 65536) (hy0 : y0 < 65536) (hu0 : u0 < 65536)
+    (hu1 : u1 < y1 * 65536 + y0) :
+    ∃ q', corrLoop loopFuel (u1 / y1) (u1 % y1) y1 y0 u0 = some q' ∧
+      q' * (y1 * 65536 + y0) ≤ u1 * 65536 + u0 ∧ u1 * 65536 + u0 < (q' + 1) * (y1 * 65536 + y0) := by
+  have hpos : 0 < y1 := by omega
+  have hr : u1 % y1 < y1 := Nat.mod_lt _ hpos
+  have hdm : u1 / y1 * y1 + u1 % y1 = u1 := by rw [Nat.mul_comm]; exact Nat.div_add_mod u1 y1
+  -- the estimate is at most 2^16 + 1 and not below the true digit
+  have hq : u1 / y1 ≤ 65537 := by
+    have h1 : u1 < y1 * 65538 := by omega
+    have := (Nat.div_lt_iff_lt_mul hpos).mpr (by rw [Nat.mul_comm] at h1; exact h1)
+    omega
+  have hup : u1 * 65536 + u0 < (u1 / y1 + 1) * (y1 * 65536 + y0) := by
+    have h2 : u1 < (u1 / y1 + 1) * y1 := by rw [Nat.add_mul]; omega
+    have e : (u1 / y1 + 1) * (y1 * 65536 + y0) = (u1 / y1 + 1) * y1 * 65536 + (u1 / y1 + 1) * y0 := by
+      rw [Nat.mul_add, Nat.mul_assoc]
+    rw [e]
+    generalize (u1 / y1 + 1) * y1 = a at *
+    generalize (u1 / y1 + 1) * y0 = b at *
+    omega
+  exact GV.Proofs.Bits32.corrLoop_digit loopFuel (u1 / y1) (u1 % y1) y1 y0 u1 u0 hy1 hy1' hy0 hu0 (by omega) hq hu1 hdm hup
+    (by unfold loopFuel; omega)
+
+/-- the full outcome relation of `Div32` — stated, NOT proved: what is missing between `div32_digit` (proved, both digits)
+    and this statement is the normalisation bookkeeping (`y <<= s`, `hi<<s | lo>>(32-s)`, the final `>> s`); every run
+    compares the model with this relation computed directly (`bits sdiv32`) and with native Go on the generated operands -/
 def div32_full : Prop := ∀ hi lo y : Nat, hi < y → y < 4294967296 → lo < 4294967296 →
   div32 hi lo y = .ok ((hi * 4294967296 + lo) / y) ((hi * 4294967296 + lo) % y)
 
